@@ -4,6 +4,7 @@ import (
 	"encoding/json"
 	"fmt"
 	"reflect"
+	"sort"
 	"strings"
 	"sync"
 	"sync/atomic"
@@ -370,11 +371,8 @@ func compileStruct(typ *runtime.Type, structName, fieldName string, structTypeTo
 					// recursive definition
 					continue
 				}
-				for k, v := range stDec.fieldMap {
-					if k != v.key {
-						// lower-cased alias of a field, not a field of its own
-						continue
-					}
+				for _, v := range declaredFieldSets(stDec.fieldMap) {
+					k := v.key
 					if tags.ExistsKey(k) {
 						continue
 					}
@@ -401,11 +399,8 @@ func compileStruct(typ *runtime.Type, structName, fieldName string, structTypeTo
 					)
 				}
 				if dec, ok := contentDec.(*structDecoder); ok {
-					for k, v := range dec.fieldMap {
-						if k != v.key {
-							// lower-cased alias of a field, not a field of its own
-							continue
-						}
+					for _, v := range declaredFieldSets(dec.fieldMap) {
+						k := v.key
 						if tags.ExistsKey(k) {
 							continue
 						}
@@ -476,6 +471,29 @@ func compileStruct(typ *runtime.Type, structName, fieldName string, structTypeTo
 	delete(structTypeToDecoder, typeptr)
 	structDec.tryOptimize()
 	return structDec, nil
+}
+
+// declaredFieldSets returns the fields of a struct decoder's field map in the
+// order of their declaration, without the lower-cased aliases the map also
+// holds. (Ranging over the map itself promoted the fields of an embedded
+// struct in a random order, and which of two names that differ only in case
+// a differently cased key selects depends on that order.)
+func declaredFieldSets(fieldMap map[string]*structFieldSet) []*structFieldSet {
+	sets := make([]*structFieldSet, 0, len(fieldMap))
+	for k, v := range fieldMap {
+		if k != v.key {
+			// lower-cased alias of a field, not a field of its own
+			continue
+		}
+		sets = append(sets, v)
+	}
+	sort.Slice(sets, func(i, j int) bool {
+		if sets[i].offset != sets[j].offset {
+			return sets[i].offset < sets[j].offset
+		}
+		return sets[i].key < sets[j].key
+	})
+	return sets
 }
 
 func filterDuplicatedFields(allFields []*structFieldSet) []*structFieldSet {
